@@ -410,6 +410,44 @@ theorem forced_reload_reloads (env : Env) (s : State) (root : Json) :
     · exact Or.inr ⟨Or.inr rfl, rfl⟩
     · exact Or.inl ⟨rfl, rfl, rfl, rfl⟩
 
+/-- **an accepted change is loaded**: whenever `changeConfig` commits (answer 200, not
+    "unchanged"), the apps have been started exactly once more, with the new document minus
+    `@id`; `rawCfgJSON` and the index are those of the new document. (What the oracle checks as
+    `config-changed-without-load` / `apps-saw-different-config`.) -/
+theorem accepted_change_is_loaded (env : Env) (force : Bool) (s : State) (root : Json)
+    (h : (commit env force s root).2 = .ok) :
+    (commit env force s root).1.loads = s.loads + 1 ∧
+    (commit env force s root).1.running = some (stripIds (cfgOf root)) ∧
+    (commit env force s root).1.rawCfgJSON = some (cfgOf root) ∧
+    indexJ (cfgOf root) (slash :: cfgKey) = some (commit env force s root).1.index ∧
+    (commit env force s root).1.rawCfg = root := by
+  unfold commit at h ⊢
+  split
+  · next hc => simp [hc] at h
+  · next hc =>
+    simp only [hc] at h
+    cases hi : indexJ (cfgOf root) (slash :: cfgKey) with
+    | none => simp [hi] at h
+    | some idx =>
+      simp only [hi] at h ⊢
+      split
+      · next hb => simp [hb] at h
+      · exact ⟨rfl, rfl, rfl, rfl, rfl⟩
+
+/-- **a fresh If-Match is never refused as stale**: when the hash of what GET `p` returns now
+    is the If-Match hash, the check lets the write through — the outcome is that of the same
+    write without the header. (What the oracle checks as `if-match-fresh-write-refused`.) -/
+theorem fresh_if_match_is_not_refused {env : Env} {m : Method} {path : Bytes} {body : Body} {force : Bool}
+    {s : State} {p h : Bytes} (hp : p ≠ []) (hps : noSpace p) (hh : h ≠ []) (hhs : noSpace h) (out : Option Json)
+    (hget : (access .get p .empty s.rawCfg).2 = .ok out) (heq : env.hash out = h) :
+    change env m path body (mkEtag p h) force s = change env m path body [] force s := by
+  rw [change_cas hp hps hh hhs]
+  generalize access .get p .empty s.rawCfg = ar at hget ⊢
+  obtain ⟨a, r⟩ := ar
+  simp only at hget
+  subst hget
+  simp [heq, change]
+
 /-! ### the representation invariant of Go maps -/
 
 /-- histories whose request bodies are trees without duplicate object keys — which is what
